@@ -157,4 +157,91 @@ func init() {
 		}
 		return nil
 	})
+
+	// tpown: {"scenarios":[{sc, steps:[{kind:"marshal"|"ext"|"append", ds, x}]}]}
+	// Ownership of returned values. ONE goroutine performs the steps of a scenario in order, each on its own
+	// object, and KEEPS what it got: the slice returned by Marshal / quicvarint.Append (not a copy), or the
+	// extension object. After every step it logs `now`: the present contents of everything it holds, oldest
+	// first (a held slice is read again, a held extension is written again into a new buffer).
+	// -> {ev:"Own", sc, step, kind, ds, x, out, panic, now}
+	hlib.Register("tpown", func(in []byte, out *hlib.Out) error {
+		type step struct {
+			Kind string `json:"kind"`
+			Ds   []desc `json:"ds"`
+			X    []int  `json:"x"`
+		}
+		var req struct {
+			Scenarios []struct {
+				Sc    int    `json:"sc"`
+				Steps []step `json:"steps"`
+			}
+		}
+		if err := json.Unmarshal(in, &req); err != nil {
+			return err
+		}
+		type holder struct {
+			b []byte
+			x *tls.QUICTransportParametersExtension
+		}
+		for _, sc := range req.Scenarios {
+			var held []holder
+			for k, st := range sc.Steps {
+				if st.Ds == nil {
+					st.Ds = []desc{}
+				}
+				if st.X == nil {
+					st.X = be8(0)
+				}
+				tps := tls.TransportParameters{}
+				for i := range st.Ds {
+					st.Ds[i].norm()
+					p, err := build(st.Ds[i])
+					if err != nil {
+						return err
+					}
+					tps = append(tps, p)
+				}
+				e := map[string]any{"ev": "Own", "sc": sc.Sc, "step": k + 1, "kind": st.Kind, "ds": st.Ds, "x": be8(u64(st.X)), "out": []int{}}
+				var h holder
+				e["panic"] = try(func() {
+					switch st.Kind {
+					case "marshal":
+						h.b = tps.Marshal()
+						if h.b == nil {
+							h.b = []byte{}
+						}
+						e["out"] = hlib.Ints(h.b)
+					case "append":
+						h.b = tls.VerifVarintAppend(nil, u64(st.X))
+						e["out"] = hlib.Ints(h.b)
+					case "ext":
+						h.x = &tls.QUICTransportParametersExtension{TransportParameters: tps}
+						buf := make([]byte, h.x.Len())
+						h.x.Read(buf)
+						e["out"] = hlib.Ints(buf)
+					default:
+						panic("harness: unknown step kind " + st.Kind)
+					}
+				})
+				if e["panic"] == "" {
+					held = append(held, h)
+				}
+				now := [][]int{}
+				for _, r := range held {
+					if r.x != nil {
+						var again []byte
+						if p := try(func() { again = make([]byte, r.x.Len()); r.x.Read(again) }); p != "" {
+							again = []byte("panic: " + p)
+						}
+						now = append(now, hlib.Ints(again))
+					} else {
+						now = append(now, hlib.Ints(r.b))
+					}
+				}
+				e["now"] = now
+				out.Emit(e)
+			}
+		}
+		return nil
+	})
 }
